@@ -76,8 +76,11 @@ def make_volume_case(rng, n_targets, mb):
         written[t["path"]] = {"stdout": [(lo * ro, 0)], "stderr": [(le * re_, 0)]}
     return {"targets": targets}, script, written
 
-def make_case(rng, n_targets, kind, layers=1):
+LONG_NAME = "a/" + "\u65e5\u672c\u8a9e\u306e\u3068\u3066\u3082\u9577\u3044\u30bf\u30fc\u30b2\u30c3\u30c8\u540d\u524d\u3067\u3054\u3056\u3044\u307e\u3059\u3088\u308d\u3057\u304f\u306d\u3048"   # 83 bytes, multi-byte throughout
+
+def make_case(rng, n_targets, kind, layers=1, long_last=False):
     targets = [{"path": "t%02d" % i} for i in range(n_targets)]
+    if long_last: targets[-1]["path"] = LONG_NAME
     if layers == 2:
         for t in targets[n_targets // 2:]: t["uses"] = [targets[0]["path"]]
     script, written = {"*": {"quiet": True}}, {}
@@ -132,7 +135,8 @@ def parse_blocks(data):
 def c08_case(ctx, rng, n_targets, kind, listener="none"):
     """listener: "none" | "alive" (a `log tail` attached and read for the whole run) | a float (attached, then killed that many
     seconds into the run).  What is stored must be what the executables wrote in every one of these situations."""
-    cfg, script, written = make_case(rng, n_targets, kind)
+    # kind "volume": megabytes of text per stream (stored logs AND what `log show` prints must be complete at any size)
+    cfg, script, written = make_volume_case(rng, n_targets, 2) if kind == "volume" else make_case(rng, n_targets, kind)
     rr = runscen.RunRepo(ctx, cfg, commands=["build"])
     lst = None
     try:
@@ -154,7 +158,7 @@ def c08_case(ctx, rng, n_targets, kind, listener="none"):
         # log show: one header per selected non-empty log followed by its bytes
         rcl, _, _, rawl = vlib.monorail(rr.repo, "log", "show", "--stdout", "--stderr")
         show_bad = []
-        if kind == "text":
+        if kind in ("text", "volume"):
             blocks, junk = parse_blocks(rawl.stdout)
             for tpath, streams in written.items():
                 for sname, chunks in streams.items():
@@ -188,7 +192,9 @@ def outcome(rr, rc, out):
             "logs": {k: (v or b"").hex() for k, v in logs.items()}}
 
 def c15_case(ctx, rng, n_targets, kill_at, flt):
-    cfg, script, written = make_case(rng, n_targets, "text", layers=2)
+    long_last = "@long" in flt            # a listener filtering on a long, non-ASCII target name
+    flt = [LONG_NAME if x == "@long" else x for x in flt]
+    cfg, script, written = make_case(rng, n_targets, "text", layers=2, long_last=long_last)
     if rng.random() < 0.3: script["build|%s" % cfg["targets"][-1]["path"]]["exit"] = 3
     rr = runscen.RunRepo(ctx, cfg, commands=["build"])
     try:
@@ -256,11 +262,17 @@ def c15_case(ctx, rng, n_targets, kill_at, flt):
     finally:
         rr.close()
 
-def c20_case(ctx, rng, n_targets, flt, crlf=False, burst=0, paused=0, extra_cmds=()):
+def c20_case(ctx, rng, n_targets, flt, crlf=False, burst=0, paused=0, extra_cmds=(), long_line=0):
     """paused > 0: whoever reads the listener's output (a pager, a slow pipe, a stopped job) does not read for that many seconds
     while the run produces far more than the pipe and socket buffers hold; afterwards it reads everything."""
     if paused: cfg, script, written = make_volume_case(rng, n_targets, 2)
     else: cfg, script, written = make_burst_case(rng, n_targets, burst) if burst else make_case(rng, n_targets, "text")
+    if long_line:
+        # one newline-terminated line of several megabytes in the middle of a task's output (larger than any single write a
+        # relay might make); not on the first target, whose stream is also replayed on the model
+        tl = cfg["targets"][min(1, n_targets - 1)]["path"]
+        script["build|%s" % tl]["chunks"] += [[1, b"x".hex(), 0, long_line], [1, b" end of the long line\n".hex(), 0], [1, b"and one more line\n".hex(), 0]]
+        written[tl]["stdout"] += [(b"x" * long_line + b" end of the long line\n", 0), (b"and one more line\n", 0)]
     if crlf:
         t0 = cfg["targets"][0]["path"]
         script["build|%s" % t0]["chunks"].append([1, b"dos line\r\n".hex(), 0]); written[t0]["stdout"].append((b"dos line\r\n", 0))
@@ -292,7 +304,7 @@ def c20_case(ctx, rng, n_targets, flt, crlf=False, burst=0, paused=0, extra_cmds
         except subprocess.TimeoutExpired: lst.kill()
         th.join(timeout=5)
         lo = bytes(got)
-        case = {"targets": n_targets, "filters": flt, "crlf": crlf, "burst": burst, "paused": paused, "extra_cmds": list(extra_cmds), "script": script if not (burst or paused) else "generated"}
+        case = {"targets": n_targets, "filters": flt, "crlf": crlf, "burst": burst, "paused": paused, "extra_cmds": list(extra_cmds), "long_line": long_line, "script": script if not (burst or paused or long_line) else "generated"}
         if out is None:
             ctx.record(case, True, False, False, True, detail={"what": "run failed", "rc": rc, "err": err}); return
         logs = stored_logs(rr, out)
@@ -309,22 +321,24 @@ def c20_case(ctx, rng, n_targets, flt, crlf=False, burst=0, paused=0, extra_cmds
                 out_.append(x)
             return out_
         tsel, csel = sel("-t"), sel("-c")
+        # which (stream, target, command) readers the run attaches to the listener: decided by the MODEL of the attachment rule
+        # (Model.Filter.attach = is_log_allowed + include_stdout/include_stderr), not by this script
+        tasks = [(sname, tpath, cmd) for cmd in run_cmds for tpath in written for sname in ("stdout", "stderr")]
+        flags = ctx.model.call("filter", True, "--stdout" in flt, "--stderr" in flt, tsel or [], csel or [],
+                               [[sname == "stdout", tpath, cmd] for sname, tpath, cmd in tasks])
+        adm = {k: bool(f) for k, f in zip(tasks, flags)}
         problems = []
         for (fname, tpath, cmd), data in blocks.items():
-            if fname[:-4] not in want_streams or (tsel is not None and tpath not in tsel) or (csel is not None and cmd not in csel):
-                problems.append({"block_outside_filters": [fname, tpath, cmd]})
-        for cmd in run_cmds:
-            for tpath in written:
-                for sname in ("stdout", "stderr"):
-                    admitted = sname in want_streams and (tsel is None or tpath in tsel) and (csel is None or cmd in csel)
-                    stored = logs.get(os.path.join(cmd, runscen.thash(tpath), sname + ".zst")) or b""
-                    got_b = blocks.get((sname + ".zst", tpath, cmd), b"")
-                    if admitted and got_b != stored:
-                        problems.append({"command": cmd, "target": tpath, "stream": sname, "tailed": len(got_b), "stored": len(stored),
-                                         "tailed_tail": got_b[-40:].decode("latin1"), "stored_tail": stored[-40:].decode("latin1")})
+            if not adm.get((fname[:-4], tpath, cmd), False): problems.append({"block_outside_filters": [fname, tpath, cmd]})
+        for (sname, tpath, cmd), admitted in adm.items():
+            stored = logs.get(os.path.join(cmd, runscen.thash(tpath), sname + ".zst")) or b""
+            got_b = blocks.get((sname + ".zst", tpath, cmd), b"")
+            if admitted and got_b != stored:
+                problems.append({"command": cmd, "target": tpath, "stream": sname, "tailed": len(got_b), "stored": len(stored),
+                                 "tailed_tail": got_b[-40:].decode("latin1"), "stored_tail": stored[-40:].decode("latin1")})
         if junk.strip(): problems.append({"output_outside_blocks": junk[:80].decode("latin1")})
         t0p = cfg["targets"][0]["path"]
-        adm0 = "stdout" in want_streams and (tsel is None or t0p in tsel)
+        adm0 = adm.get(("stdout", t0p, "build"), False)
         v = ctx.model.call("reader", events_of(written[t0p]["stdout"]), adm0, [], logs.get(os.path.join("build", runscen.thash(t0p), "stdout.zst")) or b"",
                            [blocks.get(("stdout.zst", t0p, "build"), b"")])
         ok = not problems
@@ -338,15 +352,15 @@ def c20_case(ctx, rng, n_targets, flt, crlf=False, burst=0, paused=0, extra_cmds
 def run(ctx, scale, focus):
     rng = ctx.rng
     if focus == "C08":
-        plan = [(4, "mixed"), (24, "text"), (8, "mixed"), (2, "mixed"), (12, "mixed")] if ctx.quick() else [(n, k) for n in (1, 2, 4, 8, 16, 24) for k in ("text", "mixed")] * 6
+        plan = [(4, "mixed"), (24, "text"), (8, "mixed"), (2, "mixed"), (12, "mixed"), (2, "volume")] if ctx.quick() else [(n, k) for n in (1, 2, 4, 8, 16, 24) for k in ("text", "mixed")] * 6 + [(3, "volume"), (5, "volume")] * 3
         for n, kind in plan * scale: c08_case(ctx, random.Random(rng.getrandbits(32)), n, kind)
         # the same with a `log tail` listener attached: alive throughout, or dying while the tasks are still writing
         lplan = [(4, "mixed", "alive"), (6, "text", 0.3), (4, "mixed", 0.8)] if ctx.quick() else [(n, k, l) for n in (2, 6, 12) for k in ("text", "mixed") for l in ("alive", 0.2, 0.6, 1.2)]
         for n, kind, l in lplan * scale: c08_case(ctx, random.Random(rng.getrandbits(32)), n, kind, l)
     elif focus == "C15":
         plan = [("never", ["--stdout", "--stderr"]), (0.25, ["--stdout", "--stderr"]), ("before", ["--stdout"]), (0.7, ["--stderr", "-t", "t00"]), (0.05, ["--stdout", "--stderr"]),
-                ("handshake", ["--stdout", "--stderr"])]
-        if not ctx.quick(): plan = plan * 10
+                ("handshake", ["--stdout", "--stderr"]), ("never", ["--stdout", "--stderr", "-t", "@long"])]
+        if not ctx.quick(): plan = plan * 10 + [(0.25, ["--stdout", "-t", "@long", "t00", "t01"]), ("never", ["--stderr", "-t"] + ["t%02d" % i for i in range(6)] + ["-c", "build", "lint", "test", "a-very-long-command-name-that-nobody-runs"])] * 3
         for kill_at, flt in plan * scale: c15_case(ctx, random.Random(rng.getrandbits(32)), rng.choice([4, 6]), kill_at, flt)
     else:
         plan = [(6, ["--stdout", "--stderr"], False, 0), (10, ["--stdout"], False, 0), (6, ["--stdout", "--stderr", "-t", "t00", "t03"], False, 0), (8, ["--stderr"], False, 0),
@@ -357,6 +371,8 @@ def run(ctx, scale, focus):
         cplan = [(4, ["--stdout", "--stderr", "-c", "build"], ("a_prep", "z_post")), (3, ["--stdout", "-c", "z_post", "build"], ("a_prep", "z_post"))]
         if not ctx.quick(): cplan = cplan * 5 + [(4, ["--stdout", "--stderr", "-c", "a_prep"], ("a_prep", "z_post")), (4, ["--stderr", "-c", "z_post", "-t", "t00", "t01"], ("a_prep", "z_post"))] * 3
         for n, flt, extra in cplan * scale: c20_case(ctx, random.Random(rng.getrandbits(32)), n, flt, False, 0, 0, extra)
+        for n, size in ([(3, 3000000)] if ctx.quick() else [(3, 3000000), (2, 2097153), (4, 5000000)]) * scale:
+            c20_case(ctx, random.Random(rng.getrandbits(32)), n, ["--stdout", "--stderr"], False, 0, 0, (), long_line=size)
         for n, secs in ([(6, 3)] if ctx.quick() else [(6, 3), (8, 5), (4, 2)]) * scale:
             c20_case(ctx, random.Random(rng.getrandbits(32)), n, ["--stdout", "--stderr"], False, 0, paused=secs)
 
@@ -365,5 +381,5 @@ def replay(ctx, case, focus):
     rng = random.Random(ctx.seed)
     if focus == "C08": c08_case(ctx, rng, c.get("targets", 4), c.get("kind", "mixed"), c.get("listener", "none"))
     elif focus == "C15": c15_case(ctx, rng, c.get("targets", 4), c.get("listener_killed", 0.25), c.get("filters", ["--stdout", "--stderr"]))
-    else: c20_case(ctx, rng, c.get("targets", 4), c.get("filters", ["--stdout", "--stderr"]), c.get("crlf", False), c.get("burst", 0), c.get("paused", 0), tuple(c.get("extra_cmds", ())))
+    else: c20_case(ctx, rng, c.get("targets", 4), c.get("filters", ["--stdout", "--stderr"]), c.get("crlf", False), c.get("burst", 0), c.get("paused", 0), tuple(c.get("extra_cmds", ())), c.get("long_line", 0))
     return {"spec_failures": [d for _, d in ctx.spec_failures][:3], "disagreements": [d for _, d in ctx.tie_breaks][:3]}
